@@ -458,6 +458,11 @@ template<int... I> constexpr auto angle_constarg_table(std::integer_sequence<int
   { return std::array<i64(*)(),sizeof...(I)>{{ &angle_constarg<I / NANGK, I % NANGK>... }}; }
 constexpr auto ANGLE_CONSTARG = angle_constarg_table(std::make_integer_sequence<int, 2 * NANGK>{});
 }
+// the angle carried by another integral type than int32_t (an int8_t field, a size_t counter)
+FM_EXPORT i64 fm_angle_aprox_typed(int cosine, int type, u64 bits)
+  {
+  return with_int_type(type, [&](auto t) -> i64 { auto d = from_bits<decltype(t)>(bits); return cosine ? cos_angle_aprox(d).v : sin_angle_aprox(d).v; });
+  }
 FM_EXPORT int fm_angle_constarg_count(void) { return NANGK; }
 FM_EXPORT int32_t fm_angle_constarg_value(int idx) { return ANGK[idx]; }
 FM_EXPORT i64 fm_angle_constarg(int cosine, int idx) { return ANGLE_CONSTARG[static_cast<size_t>((cosine ? 1 : 0) * NANGK + idx)](); }
@@ -532,7 +537,8 @@ constexpr auto BIN_CONSTARG = bin_constarg_table(std::make_integer_sequence<int,
 
 // ---- comparisons of a result against constants evaluated IN THE SAME inlined scope as the call (a wrong optimiser hint
 //      such as __builtin_unreachable / __builtin_assume inside the library folds these, although the stored value is right)
-constexpr i64 CMPK[] = { 0, 1, -1, 65536, -65536, 0x7ffffffffffffffell, -0x7ffffffffffffffell, 0x7fffffffffffffffll, -0x7fffffffffffffffll };
+constexpr i64 CMPK[] = { 0, 1, -1, 65536, -65536, 0x7ffffffffffffffell, -0x7ffffffffffffffell, 0x7fffffffffffffffll, -0x7fffffffffffffffll,
+                         1ll << 31, -(1ll << 31), 6553600000ll /* 100000.0 */, 1ll << 40 };     // whole numbers that do not fit a sign-extended 32-bit immediate
 constexpr int NCMPK = sizeof(CMPK)/sizeof(CMPK[0]);
 template<int... I> FM_INLINE u64 cmpmask_of(fixed_t y, std::integer_sequence<int,I...>) noexcept
   {
@@ -548,6 +554,26 @@ template<int OP> FM_NOINLINE u64 bin_cmpmask(i64 a, i64 b) noexcept { return cmp
 template<int OP> struct UnMask { static u64 call(i64 a) { return un_cmpmask<OP>(a); } };
 template<int OP> struct BinMask { static u64 call(i64 a, i64 b) { return bin_cmpmask<OP>(a, b); } };
 }
+// a comparison applied directly to the results of two library calls inside one inlined scope (the optimiser knows facts about
+// both operands, e.g. that floor() results have no fraction bits)
+namespace {
+template<int OP, int K> FM_NOINLINE i64 cmp_results(i64 a, i64 b) noexcept
+  {
+  fixed_t x { fx(un_body<OP>(a)) }, y { fx(un_body<OP>(b)) };
+  if constexpr (K==0) return x == y; else if constexpr (K==1) return x != y; else if constexpr (K==2) return x < y;
+  else if constexpr (K==3) return x <= y; else if constexpr (K==4) return x > y; else return x >= y;
+  }
+template<int OP> i64 cmp_results_k(int k, i64 a, i64 b) noexcept
+  {
+  switch(k) { case 0: return cmp_results<OP,0>(a,b); case 1: return cmp_results<OP,1>(a,b); case 2: return cmp_results<OP,2>(a,b);
+              case 3: return cmp_results<OP,3>(a,b); case 4: return cmp_results<OP,4>(a,b); default: return cmp_results<OP,5>(a,b); }
+  }
+}
+FM_EXPORT i64 fm_cmp_results(int op, int k, i64 a, i64 b)
+  {
+  switch(op) { case U_FLOOR: return cmp_results_k<U_FLOOR>(k,a,b); case U_CEIL: return cmp_results_k<U_CEIL>(k,a,b);
+               case U_NEG: return cmp_results_k<U_NEG>(k,a,b); default: return cmp_results_k<U_ABS>(k,a,b); }
+  }
 FM_EXPORT i64 fm_un_constarg(int op, int ki) { return UN_CONSTARG[static_cast<size_t>(op * NCK1 + ki)](); }
 FM_EXPORT i64 fm_bin_constarg(int op, int ki, int kj) { return BIN_CONSTARG[static_cast<size_t>((op * NCK2 + ki) * NCK2 + kj)](); }
 FM_EXPORT i64 fm_constarg_value(int binary, int ki) { return binary ? CK2[ki] : CK1[ki]; }
